@@ -336,6 +336,7 @@ def run(ctx):
 
     # ---- D4 ------------------------------------------------------------------
     d4_builtin_first(db, rep)
+    d15_c_emit_unrolled(db, rep)
 
     # ---- D5 ------------------------------------------------------------------
     n5 = 0
@@ -789,3 +790,44 @@ def d4_builtin_first(db, rep, rule="D4-BUILTIN-FIRST"):
     si = db.func("orc_opcode_sys_init", "orcopcodes-sys")
     ok = any(c.name == "orc_opcode_register_static" and strip_casts(c.args()[1]).get("str") == "sys" for c in si.calls())
     rep.check(ok, rule, where(si), "registers-sys", "orc_opcode_sys_init registers the table under the prefix \"sys\"", "the built-in table is no longer registered as \"sys\"")
+
+
+
+def d15_c_emit_unrolled(db, rep, rule="D15-C-EMIT-UNROLLED"):
+    """The C back end realises an x2/x4 instruction by calling the opcode's rule once per lane with compiler->unroll_index set to the
+    lane.  Built-in rules that ignore the index hide a site that forgets this; an application's lane-wise rule does not.  Every
+    `rule->emit (...)` in orc_compiler_c_assemble must therefore be governed by a test of the instruction's X2/X4 flags, and on
+    the flagged side be preceded by a store of a non-constant lane number into compiler->unroll_index."""
+    from flow import Facts
+    f = db.func("orc_compiler_c_assemble", "orcprogram-c")
+    rep.saw(f)
+    X = db.macro_int("ORC_INSTRUCTION_FLAG_X2") | db.macro_int("ORC_INSTRUCTION_FLAG_X4")
+    fc = Facts(f)
+    stores = [e for e in f.walk() if e.k == "BinaryOperator" and e.op == "=" and (access_path(e.c[0]) or "").endswith("->unroll_index")]
+    n = 0
+    for c in f.walk():
+        if c.k != "CallExpr" or c.name:
+            continue
+        cal = strip_casts(c.c[0]) if c.c else None
+        if cal is None or cal.k != "MemberExpr" or cal.name != "emit":
+            continue
+        n += 1
+        flagged = None
+        for cd in fc.conds(c):
+            if cd[0] == "switch":
+                continue
+            e = cd[0]
+            if any(y.k == "BinaryOperator" and y.op == "&" and any((strip_casts(z) is not None and strip_casts(z).v is not None and strip_casts(z).v & X and not strip_casts(z).v & ~X) for z in y.c)
+                   and any("flags" in (access_path(strip_casts(z)) or "") for z in y.c) for y in e.walk()):
+                flagged = bool(cd[1]) if flagged is None else (flagged or bool(cd[1]))
+        ok = flagged is not None
+        why = "is not governed by a test of insn->flags & (X2|X4)"
+        if ok and flagged:
+            ok = any(strip_casts(st.c[1]).v is None and f.dominates(st, c) for st in stores)
+            why = "runs on the x2/x4 side without a lane number having been stored into compiler->unroll_index"
+        rep.check(ok, rule, where(f), "emit@%s" % c.line, "the rule is invoked once per lane of an x2/x4 instruction",
+                  "the rule call at line %s %s: an x2/x4 instruction gets its rule invoked for lane 0 only - built-in rules of loop invariants ignore the "
+                  "lane, an application's lane-wise rule emits half (a quarter) of its code" % (c.line, why), line=c.line)
+    if n < 4:
+        raise AnalysisBroken("only %d rule->emit calls in orc_compiler_c_assemble" % n)
+    return n
